@@ -219,7 +219,7 @@ func verifC10GenConf(r *verifutil.Rand, rpi bool) map[string]any {
 		paths := map[string]any{}
 		for j := 0; j < np; j++ {
 			name := verifC10Names[r.Intn(len(verifC10Names))]
-			if r.Chance(1, 2) || rpi {
+			if r.Chance(3, 5) || rpi {
 				name = r.Pick("cam", "x1", "x2", "x3", "a/b", "cam_1")
 			}
 			switch {
@@ -228,7 +228,15 @@ func verifC10GenConf(r *verifutil.Rand, rpi bool) map[string]any {
 			case r.Chance(1, 12):
 				paths[name] = nil
 			default:
-				paths[name] = verifC10PickTweaks(r, verifC10PathTweaks, []int{0, 1, 1, 2, 2, 3, 6}[r.Intn(7)], prel)
+				pm := verifC10PickTweaks(r, verifC10PathTweaks, []int{0, 1, 1, 2, 2, 3, 6}[r.Intn(7)], prel)
+				if _, has := pm["source"]; !has {
+					for k := range pm {
+						if strings.HasPrefix(k, "rpiCamera") && r.Chance(3, 4) {
+							pm["source"] = "rpiCamera"
+						}
+					}
+				}
+				paths[name] = pm
 			}
 		}
 		top["paths"] = paths
